@@ -290,3 +290,31 @@ pub fn check_iter_functor(f: &P, tf: TF, loc: &mut Local) {
         loc.nontrivial_sub();
     }
 }
+
+/// lax diagrams WITH pending unifications: the image through the lax trait must be the substitution of the
+/// strictified diagram; the native entry point may refuse, but if it returns an image it must be that one too
+pub fn check_pending<Bk: StrictOps>(l: &L, tf: TF, loc: &mut Local) {
+    let strict = match l.strictify() {
+        Some(s) => s,
+        None => return,
+    };
+    let expected = tf.substitute(&strict);
+    let lf = build_lax(l);
+    loc.trans(2);
+    match catch(|| LaxTF(tf).map_arrow(&lf)).and_then(|r| strictify_real(&r)) {
+        Ok(r) if iso(&r, &expected) => {}
+        other => loc.violation("dyn-functor-on-pending-unifications:not-the-substitution", json!({"diagram": l, "functor": tf, "got": format!("{:?}", other), "expected": expected})),
+    }
+    match catch(|| try_define_map_arrow(&LaxTF(tf), &lf)) {
+        Err(p) => loc.violation("native-on-pending-unifications:panic", json!({"diagram": l, "functor": tf, "panic": p})),
+        Ok(None) => {}
+        Ok(Some(r)) => match strictify_real(&r) {
+            Ok(r) if iso(&r, &expected) => {}
+            other => loc.violation("native-on-pending-unifications:returns-a-wrong-image", json!({"diagram": l, "functor": tf, "got": format!("{:?}", other), "expected": expected})),
+        },
+    }
+    let (_, k) = classes(l.open.nodes.len(), &l.quot);
+    if k < l.open.nodes.len() {
+        loc.nontrivial_sub();
+    }
+}
